@@ -150,7 +150,7 @@ class _GzObj:
         T.mat += len(out)
         if not out and ut and self._o.eof:
             T.idle += 1
-            if T.idle > 2000:
+            if T.idle > 20:
                 raise SpinDetected("do.decompress() keeps returning b'' with a non-empty unconsumed_tail after end of stream")
         return out
 
@@ -433,9 +433,10 @@ def gzip_body(payload: bytes, level: int = 6) -> bytes:
 
 
 # --------------------------------------------------------------------------- independent reference decoding
-def ref_decode(enc: str, body: bytes) -> tuple[str, bytes, int | None]:
-    """Whole-input reference: ("ok", decoded, declared) | ("truncated", prefix, declared) | ("corrupt", prefix, declared).
-    ``ok`` = the body starts with one complete, valid gzip member / zstd frame."""
+def ref_decode(enc: str, body: bytes) -> tuple[str, bytes, int | None, bool]:
+    """Whole-input reference: (kind, decoded-or-prefix, declared zstd size, trailing data present) with kind
+    "ok" = the body starts with one complete, valid gzip member / zstd frame, "truncated" = the input ended
+    before the end of the member / frame, "corrupt" = the library rejected it."""
     if enc == "gzip":
         d = _real_zlib.decompressobj(31)
         out = b""
@@ -443,18 +444,18 @@ def ref_decode(enc: str, body: bytes) -> tuple[str, bytes, int | None]:
             out = d.decompress(body)
             out += d.flush()
         except Exception:
-            return "corrupt", out, None
-        return ("ok" if d.eof else "truncated"), out, None
+            return "corrupt", out, None, False
+        return ("ok" if d.eof else "truncated"), out, None, bool(d.unused_data)
     declared = None
     try:
         cs = _zstd.get_frame_parameters(body).content_size
         declared = None if cs in (-1, 2**64 - 1) else int(cs)
     except Exception:
-        return ("truncated" if len(body) < 18 and b"\x28\xb5\x2f\xfd".startswith(body[:4]) and len(body) < 4 else "corrupt"), b"", None
+        return "corrupt", b"", None, False
     o = _ORIG_ZD().decompressobj()
     out = b""
     try:
         out = o.decompress(body)
     except Exception:
-        return "corrupt", out, declared
-    return ("ok" if o.eof else "truncated"), out, declared
+        return "corrupt", out, declared, False
+    return ("ok" if o.eof else "truncated"), out, declared, bool(o.unused_data)
